@@ -223,7 +223,6 @@ pub fn dump_client(
     tb: TimeBase,
 ) -> CsDump {
     let mut d = CsDump::default();
-    let universe: Vec<Uuid> = namer.universe().to_vec();
     let mut txn = match storage.txn(client) {
         Ok(t) => t,
         Err(e) => {
@@ -238,31 +237,48 @@ pub fn dump_client(
             None
         }
     };
+    // ids stored in the client record belong to the probing universe too (a version whose id
+    // was never returned to anybody - a lost acknowledgement - is reachable only from here)
+    if let Some(c) = &cl {
+        namer.name(c.latest_version_id);
+        if let Some(s) = &c.snapshot {
+            namer.name(s.version_id);
+        }
+    }
     let mut byid: BTreeSet<VRec> = BTreeSet::new();
     let mut bypar: BTreeSet<VRec> = BTreeSet::new();
-    for id in &universe {
-        match txn.get_version(*id) {
-            Ok(Some(v)) => {
-                byid.insert(VRec {
-                    vid: namer.name(v.version_id),
-                    parent: namer.name(v.parent_version_id),
-                    tok: pay.tok_of(&v.history_segment),
-                });
-            }
-            Ok(None) => {}
-            Err(e) => d.err.push(format!("get_version: {e}")),
+    let mut probed = 0usize;
+    // probe to a fixpoint: ids discovered in returned records (parents, children) are probed as well
+    for _round in 0..64 {
+        let universe: Vec<Uuid> = namer.universe().to_vec();
+        if universe.len() == probed {
+            break;
         }
-        match txn.get_version_by_parent(*id) {
-            Ok(Some(v)) => {
-                bypar.insert(VRec {
-                    vid: namer.name(v.version_id),
-                    parent: namer.name(v.parent_version_id),
-                    tok: pay.tok_of(&v.history_segment),
-                });
+        for id in &universe[probed..] {
+            match txn.get_version(*id) {
+                Ok(Some(v)) => {
+                    byid.insert(VRec {
+                        vid: namer.name(v.version_id),
+                        parent: namer.name(v.parent_version_id),
+                        tok: pay.tok_of(&v.history_segment),
+                    });
+                }
+                Ok(None) => {}
+                Err(e) => d.err.push(format!("get_version: {e}")),
             }
-            Ok(None) => {}
-            Err(e) => d.err.push(format!("get_version_by_parent: {e}")),
+            match txn.get_version_by_parent(*id) {
+                Ok(Some(v)) => {
+                    bypar.insert(VRec {
+                        vid: namer.name(v.version_id),
+                        parent: namer.name(v.parent_version_id),
+                        tok: pay.tok_of(&v.history_segment),
+                    });
+                }
+                Ok(None) => {}
+                Err(e) => d.err.push(format!("get_version_by_parent: {e}")),
+            }
         }
+        probed = universe.len();
     }
     d.v = byid.into_iter().collect();
     d.k = bypar.into_iter().collect();
